@@ -256,6 +256,24 @@ def real_model_job(interp, c, case):
     now = M.get_parameter_dictionary()
     _rep(c, s_and(now["kf"] == kf, now["kr"] == kr, now["kd"] == kd), "[%s] real model: parameters restored" % method,
          "real model parameters changed", rp, syms)
+    # a second real model: dimerisation 2A -> B by mass action (deterministic rate k2*A^2, not the combinatorial k2*A*(A-1)): quadratic in A, so the
+    # central schemes are exact and the one-sided ones carry their known first-order term
+    k2 = c.real("k2", lo=0, lo_strict=True)
+    M2 = T.ns["Model"](species=["A", "B"], parameters=[("k2", k2)], reactions=[(["A", "A"], ["B"], "massaction", {"k": "k2"})])
+    order2 = M2.get_species_list()
+    ja, jb = order2.index("A"), order2.index("B")
+    x2 = [0, 0]
+    x2[ja], x2[jb] = a, b
+    h = Fraction(1, 100)
+    slope = {"fourth_order_central_difference": 2 * a, "central_difference": 2 * a, "forward_difference": 2 * a + h, "backward_difference": 2 * a - h}[method]
+    J2 = A_.ns["py_get_jacobian"](M2, list(x2), method=method)
+    rp2 = dict(kind="real_model", method=method, model="dimer")
+    syms2 = {"k2": k2, "A": a, "B": b}
+    _rep(c, s_and(J2[ja, ja] == -2 * k2 * slope, J2[jb, ja] == k2 * slope, J2[ja, jb] == 0, J2[jb, jb] == 0),
+         "[%s] real model 2A -> B: the Jacobian is that of the deterministic law k2*A^2 (d/dA = 2*k2*A%s)" % (
+             method, "" if "central" in method else " +/- k2*h from the one-sided scheme"), "jacobian of a real model (dimer)", rp2, syms2)
+    Z2 = A_.ns["py_get_sensitivity_to_parameter"](M2, list(x2), "k2", method=method)
+    _rep(c, s_and(Z2[ja] == -2 * a * a, Z2[jb] == a * a), "[%s] real model 2A -> B: d f / d k2 = (-2A^2, A^2)" % method, "sensitivity of a real model (dimer)", rp2, syms2)
 
 
 def check(tier):
